@@ -25,8 +25,17 @@ def methods_program(draw):
             d = draw(st.integers(0, len(SC) - 1)) if kind in ("def", "kwdef") else None
             params.append(["a%d" % j, kind, d])
         body = draw(st.sampled_from(["ident", "lit", "arr", "ret", "ident", "lit"]))
+        fwd = None
+        if i > 0 and draw(st.integers(0, 2)) == 0:
+            # forward the own first parameter unchanged to an earlier method and return its result
+            body = "forward"
+            fwd = draw(st.integers(0, i - 1))
+            if meths[fwd]["body"] == "forward" and draw(st.integers(0, 4)) > 0:
+                # chains of forwarders (depth >= 2) are a listed finding: mostly avoided, kept alive at low weight
+                cands = [j for j in range(i) if meths[j]["body"] != "forward"]
+                fwd = cands[draw(st.integers(0, len(cands) - 1))] if cands else fwd
         op = draw(st.sampled_from([None, None, "fail", "ok"]))
-        meths.append({"name": "f%d" % i, "params": params, "body": body, "lit": draw(st.integers(0, len(SC) - 1)), "op": op})
+        meths.append({"name": "f%d" % i, "params": params, "body": body, "lit": draw(st.integers(0, len(SC) - 1)), "op": op, "fwd": fwd})
     calls = []
     for m in meths:
         for _ in range(draw(st.integers(1, 5))):
@@ -71,8 +80,39 @@ def render(case):
             if d is not None:
                 pt[m["name"]][i].add(SC[d][1])
 
-    def ret_type(name):
+    # forwarding: the callee's first parameter also receives everything the forwarder's first parameter receives;
+    # the other parameters of the callee get the literal the forwarder passes (Integer)
+    changed = True
+    while changed:
+        changed = False
+        for m in meths:
+            if m["body"] != "forward":
+                continue
+            callee = meths[m["fwd"]]
+            before = [set(x) for x in pt[callee["name"]]]
+            pt[callee["name"]][0] |= pt[m["name"]][0]
+            for i, (pn, kind, d) in enumerate(callee["params"]):
+                if i > 0 and kind in ("pos", "kw"):
+                    pt[callee["name"]][i].add("Integer")
+            if before != pt[callee["name"]]:
+                changed = True
+
+    def fwd_call(m):
+        callee = meths[m["fwd"]]
+        parts = ["a0"]
+        for i, (pn, kind, d) in enumerate(callee["params"]):
+            if i == 0:
+                continue
+            if kind == "pos":
+                parts.append("1")
+            elif kind == "kw":
+                parts.append("%s: 1" % pn)
+        return "%s(%s)" % (callee["name"], ", ".join(parts))
+
+    def ret_type(name, depth=0):
         m = P[name]
+        if m["body"] == "forward":
+            return ret_type(meths[m["fwd"]]["name"], depth + 1) if depth < 6 else None
         if m["body"] == "ident":
             return sorted(pt[name][0])
         if m["body"] == "lit":
@@ -107,7 +147,9 @@ def render(case):
         elif m["op"] == "ok":
             lines.append("  a0.to_s")
             probes.append([len(lines), "no-diag", None, "op-succeeds-for-all"])
-        if m["body"] == "ident":
+        if m["body"] == "forward":
+            lines.append("  " + fwd_call(m))
+        elif m["body"] == "ident":
             lines.append("  a0")
         elif m["body"] == "lit":
             lines.append("  " + SC[m["lit"]][0])
@@ -157,7 +199,7 @@ class Check(Prop):
     ID = "C15"
     RULE = ("cases = generated programs with 1-4 top-level user methods (positional, default, keyword and defaulted keyword "
             "parameters), bodies with model-known results (return the first parameter, a literal, an array, an early `return` literal "
-            "in a conditional, plus optionally one body operation), 1-5 call sites each with literal arguments of 6 classes, placed before "
+            "in a conditional, forwarding the own first parameter unchanged to an earlier method, plus optionally one body operation), 1-5 call sites each with literal arguments of 6 classes, placed before "
             "the definition, after it, and inside another method. Oracle: (i) `dbtp param` inside the body is a superset of the union of "
             "the argument types of all call sites plus the default's type; (ii) the -i signature hint on the def row lists parameter "
             "types that are supersets of the same; (iii) `dbtp f(...)` equals the model's result under that union typing (for the "
@@ -258,4 +300,33 @@ class Check(Prop):
                 return False
             names = {m["name"] for m in case["meths"] if len(m["params"]) >= 3}
             return any(mm.endswith("for " + n) for mm in msgs for n in names)
-        return {"c15_kind": m_kind, "c15_call_before_def_3params": m_before_def}
+        def m_before_forward(case, v, params):
+            """The result of a call written before the definitions is a strict subset of the model's type in a program where a method
+            forwards its parameter to another one (the call's result is computed before the forwarded types arrive)."""
+            if v.get("kind") != "ret" or v.get("detail") != "before":
+                return False
+            if not any(m.get("body") == "forward" for m in case["meths"]):
+                return False
+            m_ = re.search(r"model (\[.*?\]), ti (.*)$", v.get("what") or "")
+            if not m_:
+                return False
+            want = set(re.findall(r"'(\w+)'", m_.group(1)))
+            try:
+                got = set(outmod.parse_type(m_.group(2)))
+            except outmod.TypeParseError:
+                return False
+            return bool(got) and got < want
+        def m_chain(case, v, params):
+            """Types do not travel through two forwarding methods (f3 -> f1 -> f0) within ti's fixed number of rounds: some probe shows a
+            strict subset of the model's type in a program that contains such a chain."""
+            ms = case["meths"]
+            if not any(m.get("body") == "forward" and ms[m["fwd"]].get("body") == "forward" for m in ms):
+                return False
+            m_ = re.search(r"model (\[.*?\]), ti (.*)$", v.get("what") or "")
+            if not m_ or v.get("kind") not in ("ret", "param", "sig"):
+                return False
+            want = set(re.findall(r"'(\w+)'", m_.group(1)))
+            got = set(re.findall(r"[A-Z]\w+", m_.group(2))) - {"Union"}
+            return bool(got) and got < want
+        return {"c15_kind": m_kind, "c15_call_before_def_3params": m_before_def, "c15_call_before_def_forwarded": m_before_forward,
+                "c15_forward_chain": m_chain}
